@@ -176,12 +176,13 @@ def sites_of(fn):
         if t["k"] == "assert":
             ops = t.get("ops", [])
             desc = ",".join(_opdesc(fn, o) for o in ops)
-            out.append({"kind": "assert", "detail": "%s(%s)" % (t["msg"], desc), "cond": t["msg"], "bb": bi, "line": t["line"], "mac": t.get("mac", [])})
+            out.append({"kind": "assert", "detail": "%s(%s)" % (t["msg"], desc), "cond": t["msg"], "bb": bi, "line": t["line"], "mac": t.get("mac", []),
+                        "sig": "%s(%s)%s" % (t["msg"], ",".join(canon_op(fn, o) for o in ops), _closure_context(fn))})
         elif t["k"] in ("call", "tailcall"):
             cl = classify_call(fn, t)
             if cl:
                 out.append({"kind": cl[0], "detail": cl[1], "cond": cl[2], "bb": bi, "line": t["line"], "mac": t.get("mac", []), "callee": callee_def(t),
-                            "sig": _producer_sig(fn, t)})
+                            "sig": _producer_sig(fn, t) + _closure_context(fn)})
     # ordinals
     counts = {}
     for s in out:
@@ -217,6 +218,63 @@ def _producer_sig(fn, t):
             elif d[0] == "param":
                 names.add("param:" + ".".join(str(x) for x in p))
     return "|".join(sorted(names))
+
+
+def _closure_context(fn):
+    """'@<name of the call the closure is handed to>' for a closure body, '' otherwise: a site inside a closure is recognised again
+    after the closures of its function were renumbered only when the closure is still used the same way"""
+    if fn.kind != "closure":
+        return ""
+    try:
+        from .guards import _closure_use
+        use = _closure_use(fn.facts, fn)
+    except Exception:
+        use = None
+    if not use:
+        return "@closure"
+    return "@" + (use[2]["callee"].get("name") or "call")
+
+
+def canon_op(fn, o, depth=0):
+    """description of an operand by what computed it (callee names, parameter names, constants), independent of local variable
+    names and of whether the code sits in a closure: a captured variable is described as the enclosing function computes it"""
+    from .flow import origins
+    c = o.get("const")
+    if c is not None:
+        return str(c.get("int") or c.get("v", "const"))
+    descs = set()
+    for d, p in origins(fn, o):
+        if d[0] == "call":
+            descs.add((callee_def(fn.term(d[1])) or "call").rsplit("::", 1)[-1] + "()")
+        elif d[0] == "param":
+            if fn.kind == "closure" and d[1] == 1 and p and depth < 3:
+                up = None
+                for uv in fn.mir.get("upvars", []):
+                    fs = [x for x in uv["place"]["p"] if isinstance(x, dict) and "f" in x]
+                    if fs and str(fs[0]["f"]) == str(p[0]):
+                        up = uv["name"]
+                parent = fn.facts.fn(fn.d["parent"]) if up else None
+                done = False
+                if parent is not None:
+                    for i, loc in enumerate(parent.locals):
+                        if loc.get("name") == up:
+                            descs.add(canon_op(parent, {"copy": {"l": i, "p": []}}, depth + 1) + "".join("." + str(x) for x in p[1:]))
+                            done = True
+                            break
+                    if not done and parent.kind == "closure":
+                        for uv in parent.mir.get("upvars", []):
+                            if uv["name"] == up:
+                                descs.add(canon_op(parent, {"copy": uv["place"]}, depth + 1))
+                                done = True
+                if not done:
+                    descs.add(up or "upvar")
+            else:
+                descs.add((fn.local_name(d[1]) or "arg%d" % d[1]) + "".join("." + str(x) for x in p))
+        elif d[0] == "const":
+            descs.add(str(d[1]))
+        else:
+            descs.add("tmp")
+    return "|".join(sorted(descs)) if descs else "tmp"
 
 
 def _is_box_pointer(fn, l):
@@ -340,12 +398,20 @@ def run_census(ctx, rule, root_defs, F, reviews, prop_id, label, only=None, extr
             continue
         # the same operation on the result of the same callee, moved inside its function (closure <-> body): what the reviewed
         # argument is about -- which value is unwrapped / indexed -- is unchanged
-        if shp[0] in ("extern", "unsafe") and s.get("sig") and not s["sig"].startswith("param:"):
+        if shp[0] in ("extern", "unsafe") and s.get("sig") and (not s["sig"].startswith("param:") or "@" in s["sig"]):
             top_new = _top_path(F, b)
+            bare = s["sig"].split("@")[0]
             for k2, rv2 in reviews.items():
                 if rv2.get("guard") or k2 in all_keys or _shape(k2) != shp or _key_top(k2) != top_new:
                     continue
-                if rv2.get("sig") and rv2["sig"] == s["sig"]:
+                if not rv2.get("sig"):
+                    continue
+                if bare.startswith("param:") or not bare:
+                    # an operation on the closure's own argument: the same closure, renumbered (same use of the closure)
+                    same = rv2["sig"] == s["sig"]
+                else:
+                    same = rv2["sig"].split("@")[0] == bare
+                if same:
                     moved = (k2, rv2)
                     break
             if moved is not None:
@@ -355,6 +421,24 @@ def run_census(ctx, rule, root_defs, F, reviews, prop_id, label, only=None, extr
         # magnitude arguments about an addition ("counts characters of the text", "bounded by the token count") do not depend on the
         # control context of the site: they are carried over when the same addition (same operand description) reappears in the same
         # function (closure <-> loop body) or in a new helper that only that function calls, and the reviewed site is gone
+        # the same arithmetic on the same values (described by what computed them, see canon_op), moved inside its function
+        # (closure <-> body, closures renumbered)
+        if shp[0] == "assert" and s.get("sig"):
+            top_new = _top_path(F, b)
+            bare = s["sig"].split("@")[0]
+            for k2, rv2 in reviews.items():
+                if rv2.get("guard") or k2 in all_keys or _key_top(k2) != top_new or not rv2.get("sig"):
+                    continue
+                if rv2["sig"].split("@")[0] == bare and "arg" not in bare:
+                    moved = (k2, rv2)
+                    break
+                if rv2["sig"] == s["sig"] and "@" in s["sig"]:
+                    moved = (k2, rv2)
+                    break
+            if moved is not None:
+                rep.ob(rule, key, True, "", where, how="reviewed argument of %s carried over (the same operation %s, moved within the function): %s" % (
+                    moved[0], s["sig"], moved[1]["reason"]))
+                continue
         if shp[0] == "assert" and shp[1].startswith("overflow_add("):
             top_new = _top_path(F, b)
             for k2, rv2 in reviews.items():
@@ -375,9 +459,34 @@ def run_census(ctx, rule, root_defs, F, reviews, prop_id, label, only=None, extr
                 if same_fn or only_caller:
                     moved = (k2, rv2)
                     break
+            if moved is None:
+                # the same counter written another way in the same function: equal constant operands, as many variable ones
+                def _ops(detail):
+                    inner = detail[len("overflow_add("):-1]
+                    parts = inner.split(",")
+                    consts = sorted(x for x in parts if x.lstrip("-").isdigit())
+                    return consts, len(parts) - len(consts)
+                for k2, rv2 in reviews.items():
+                    if rv2.get("guard") or k2 in all_keys or _key_top(k2) != top_new:
+                        continue
+                    sh2 = _shape(k2)
+                    if sh2[0] == "assert" and sh2[1].startswith("overflow_add(") and _ops(sh2[1]) == _ops(shp[1]):
+                        moved = (k2, rv2)
+                        break
             if moved is not None:
                 rep.ob(rule, key, True, "", where, how="reviewed magnitude argument of %s carried over (the same addition, moved %s): %s" % (
                     moved[0], "within the function" if _key_top(moved[0]) == top_new else "into a helper only that function calls", moved[1]["reason"]))
+                continue
+        if shp == ("extern", "sum"):
+            # a library sum() replacing a running total written out by hand in the same function
+            top_new = _top_path(F, b)
+            for k2, rv2 in reviews.items():
+                sh2 = _shape(k2)
+                if not rv2.get("guard") and k2 not in all_keys and _key_top(k2) == top_new and sh2[0] == "assert" and sh2[1].startswith("overflow_add("):
+                    moved = (k2, rv2)
+                    break
+            if moved is not None:
+                rep.ob(rule, key, True, "", where, how="reviewed magnitude argument of %s carried over (the running total is now a library sum): %s" % (moved[0], moved[1]["reason"]))
                 continue
         chain = F.path_to(parent, iid) if iid is not None else []
         rep.fail(rule, key, "undischarged %s site in a body reachable from %s: %s can panic / is undefined when: %s. Path: %s" % (
